@@ -1124,13 +1124,16 @@ func c03Special(c *Ctx, p *Prog) {
 		return
 	}
 	site := p.pos(fn.Pos())
+	want := map[string]string{"+inf": "+Inf", "+infinity": "+Inf", "inf": "+Inf", "infinity": "+Inf", "-inf": "-Inf", "-infinity": "-Inf", "nan": "NaN"}
+	if c03SpecialTable(c, p, fn, want) {
+		return
+	}
 	mk := func() *e6Interp { return &e6Interp{PureCall: func(f *types.Func) bool { return true }, MaxAtoms: 20} }
 	outs, why := e6Enumerate(mk, fn.Blocks[0], nil, nil, 4096)
 	if why != "" {
 		c.Undecided(R, "special:table", site, why)
 		return
 	}
-	want := map[string]string{"+inf": "+Inf", "+infinity": "+Inf", "inf": "+Inf", "infinity": "+Inf", "-inf": "-Inf", "-infinity": "-Inf", "nan": "NaN"}
 	seen := map[string]bool{}
 	n := 0
 	for _, o := range outs {
@@ -1209,4 +1212,122 @@ func c03Decimal(c *Ctx, p *Prog) {
 		c.Check(ok1 && ok2 && base == 10 && bits == 0, R, fmt.Sprintf("Atoi:%s#%d", sc.Name(), n), p.pos(call.Pos()), "base 10, bit size 0", fmt.Sprintf("Atoi's slow path parses with base %d (constant: %v) and bit size %d: an iteration count of 19 or more characters is then read with a base guessed from its prefix (0000000000000000000100 becomes 64, 0x…10 and 1_000_… are accepted) instead of the decimal integer written", base, ok1, bits))
 	})
 	c.Floor(R, "integer parser calls in Atoi", n, 1)
+}
+
+// c03SpecialTable: the table-driven form of special: a loop over a package-level table of (spelling, value) pairs that
+// compares the whole input with each spelling and returns that entry's value. Reports whether this form was recognised.
+func c03SpecialTable(c *Ctx, p *Prog, fn *ssa.Function, want map[string]string) bool {
+	const R = "C03/R8"
+	site := p.pos(fn.Pos())
+	var tbl *ssa.Global
+	var nameF *types.Var
+	var cmpCall *ssa.Call
+	eachInstr(fn, func(_ *ssa.BasicBlock, in ssa.Instruction) {
+		call, ok := in.(*ssa.Call)
+		if !ok || call.Call.StaticCallee() == nil || call.Call.StaticCallee().Name() != "equalIgnoreCase" || len(call.Call.Args) != 2 {
+			return
+		}
+		f, base := loadOfField(call.Call.Args[1])
+		if f == nil {
+			return
+		}
+		if ia, ok := base.(*ssa.IndexAddr); ok {
+			if g, ok := ia.X.(*ssa.Global); ok {
+				tbl, nameF, cmpCall = g, f, call
+			}
+		}
+	})
+	if tbl == nil {
+		return false
+	}
+	whole := cmpCall.Call.Args[0] == ssa.Value(fn.Params[0])
+	// the value returned on a match is the same element's other field
+	valOK := false
+	var valF *types.Var
+	for _, b := range fn.Blocks {
+		ret, ok := b.Instrs[len(b.Instrs)-1].(*ssa.Return)
+		if !ok || len(ret.Results) != 2 {
+			continue
+		}
+		if k, ok := ret.Results[1].(*ssa.Const); !ok || k.Value == nil || !constant.BoolVal(k.Value) {
+			continue
+		}
+		f, base := loadOfField(ret.Results[0])
+		_, nameBase := loadOfField(cmpCall.Call.Args[1])
+		if f != nil && f != nameF && sameValue(base, nameBase) {
+			valOK, valF = true, f
+			for _, ft := range factsAt(b) {
+				if ft.Cond == ssa.Value(cmpCall) && ft.True {
+					valOK = true
+				}
+			}
+		}
+	}
+	// the table's contents, from the package initialiser
+	entries := map[int64][2]string{}
+	if initFn := fn.Pkg.Func("init"); initFn != nil {
+		eachInstr(initFn, func(_ *ssa.BasicBlock, in ssa.Instruction) {
+			st, ok := in.(*ssa.Store)
+			if !ok {
+				return
+			}
+			f, base := fieldOfAddr(st.Addr)
+			ia, ok := base.(*ssa.IndexAddr)
+			if f == nil || !ok || ia.X != ssa.Value(tbl) {
+				return
+			}
+			i, ok := constInt(ia.Index)
+			if !ok {
+				return
+			}
+			e := entries[i]
+			switch f {
+			case nameF:
+				if s, ok := constString(st.Val); ok {
+					e[0] = s
+				}
+			case valF:
+				e[1] = "?"
+				if call, ok := st.Val.(*ssa.Call); ok {
+					switch {
+					case objIs(calleeObj(&call.Call), "math", "", "NaN"):
+						e[1] = "NaN"
+					case objIs(calleeObj(&call.Call), "math", "", "Inf"):
+						if k, ok := constInt(call.Call.Args[0]); ok && k >= 0 {
+							e[1] = "+Inf"
+						} else if ok {
+							e[1] = "-Inf"
+						}
+					}
+				}
+			}
+			entries[i] = e
+		})
+	}
+	c.Check(whole && valOK, R, "special:table-lookup", site, "the whole input is compared with each spelling of the table and the matching entry's value is returned", "the table-driven recogniser does not compare the whole input with the entry's spelling, or returns something other than that entry's value")
+	seen := map[string]bool{}
+	var idx []int64
+	for i := range entries {
+		idx = append(idx, i)
+	}
+	sort.Slice(idx, func(a, b int) bool { return idx[a] < idx[b] })
+	for _, i := range idx {
+		e := entries[i]
+		key := fmt.Sprintf("special[%q]", e[0])
+		if want[e[0]] == "" {
+			c.Bad(R, key, site, fmt.Sprintf("the spelling %q is accepted as %s; strconv accepts only [+-]inf, [+-]infinity and nan", e[0], e[1]))
+			continue
+		}
+		seen[e[0]] = true
+		c.Check(want[e[0]] == e[1], R, key, site, fmt.Sprintf("%q reads as %s", e[0], e[1]), fmt.Sprintf("%q reads as %s, strconv gives %s", e[0], e[1], want[e[0]]))
+	}
+	var missing []string
+	for l := range want {
+		if !seen[l] {
+			missing = append(missing, l)
+		}
+	}
+	sort.Strings(missing)
+	c.Check(len(missing) == 0, R, "special:all-spellings", site, "every spelling strconv accepts is accepted", fmt.Sprintf("the spellings %v, which strconv accepts, are not recognised", missing))
+	return true
 }
